@@ -91,6 +91,12 @@ CLAIMED = {
         "text": "C19_reserve_covers / C19_reserve_refuses / C19_with_capacity; a grid of 576 (entry point, element size, count, starting length) cases on both sides of usize::MAX, usize::MAX/size, isize::MAX/size is run against std (where std does not abort) and the model, plus boundary scenarios (slices of zero-sized elements summing past usize::MAX, String reserve/with_capacity). Arena-side size checks are covered by C09's no-panic theorem and layout_ok in the arena model.",
         "design_ref": "DESIGN.md §6 C19",
     },
+    "C17": {
+        "engine": "box",
+        "technique": "Coq proof (ownership bookkeeping of a Box model: drop once, no arena release, conversions preserve value and order, downcast iff tag) + differential execution against std::boxed::Box",
+        "text": "C17_drop_once_no_release / C17_into_inner_moves / C17_leak_never_drops / C17_new_one_alloc / C17_array_slice_roundtrip / C17_downcast_iff_tag / C17_life; generated scenarios (new_in, pin_in, into_inner, into_raw/from_raw, leak, downcast matching and not, Vec/boxed slice/array conversions, from_iter_in, zero-sized values, comparisons/hash/format/iterator forwarding) are run on bumpalo's Box and std's Box with a drop ledger, the arena's getters and the global-allocator log. Partial: the model is deliberately thin; trait forwarding is differential-only.",
+        "design_ref": "DESIGN.md §6 C17",
+    },
     "C18": {
         "technique": "Coq proof (capacity lemmas by induction over request lists; doubling of the first candidate of the sizing policy) + correspondence of request sizes",
         "text": "C18_capacity_honoured / C18_capacity_exact / C18_with_capacity_size / C18_growth_doubles. " + ARENA_TEXT + "Partial: the logarithmic bound on request counts, the constant-factor bound on held memory and the Vec/String reservation clauses are not yet theorems.",
@@ -147,6 +153,9 @@ def main():
             "add_only": True,
         },
         "engines": [
+            {"name": "box", "path": "coq/BoxModel.v + harness/src/bin/box_driver.rs + ocaml/box_check.ml",
+             "serves_properties": ["C17"],
+             "kind_free_text": "ownership model of Box with theorems; differential execution against std::boxed::Box with drop ledger and arena observations"},
             {"name": "string", "path": "coq/Utf8*.v + coq/LossyTable*.v + harness/src/bin/string_driver.rs + ocaml/string_check.ml",
              "serves_properties": ["C14"],
              "kind_free_text": "Coq theory of well-formed UTF-8, char boundaries and the lossy decoder; differential execution against std::string::String, core::str::from_utf8, from_utf8_lossy, from_utf16"},
